@@ -66,6 +66,15 @@ class OtherUserError(Exception):
     pass
 
 
+def _uexc(e):
+    """An exception the generated *user code* raises on purpose: never a harness error, wherever it surfaces."""
+    try:
+        e.injected_fault = True
+    except Exception:  # noqa: BLE001 - exceptions without __dict__
+        pass
+    return e
+
+
 USER_ERRORS = {"UserError": UserError, "OtherUserError": OtherUserError, "ValueError": ValueError, "KeyError": KeyError}
 
 
@@ -267,6 +276,10 @@ class Interp:
         except Exception as e:  # noqa: BLE001 - delivered to user code
             rec = {"path": path, "kind": kind, "inv": run.inv, "clk": run.clock(), "out": "exc", "pre": pre,
                    "exc": type(e).__name__, "msg": str(e), "etype": getattr(e, "error_type", None), "task": t.id if t else None}
+            if not isinstance(e, sdk_exc.DurableExecutionsError) and type(e).__name__ not in USER_ERRORS:
+                import traceback as _tb
+
+                rec["tb"] = "".join(_tb.format_exception(type(e), e, e.__traceback__)[-8:])  # diagnostics: where did a foreign exception come from
             run.obs.append(rec)
             self._write_ahead(path, kind, rec, e)
             raise
@@ -289,6 +302,11 @@ class Interp:
         op = self._op_by_path(path)
         st = op["Status"] if op else None
         rec["backend_status"] = st
+        if exc is not None and st == "SUCCEEDED" and kind in ("step", "wait", "child", "wfcond", "invoke", "wait_for_callback", "callback_result") and not isinstance(exc, sdk_exc.DurableExecutionsError):
+            # the backend holds a SUCCEEDED record for this position, yet the call raised something that is neither
+            # the SDK's error for a recorded failure nor an invocation-level error: the recorded outcome was not delivered
+            self.run.v("C01", "recorded_outcome_not_delivered", f"{kind}:{type(exc).__name__}",
+                       f"{path}: the backend holds SUCCEEDED but the call raised {type(exc).__name__}({str(exc)[:120]!r}); {rec.get('tb', '')[-600:]}")
         if st not in TERMINAL:
             self.run.v("C03", "outcome_visible_before_record", f"{kind}:{'error' if exc else 'result'}",
                        f"{path}: user code received {'exception ' + type(exc).__name__ if exc else 'a result'} while the backend holds status {st}")
@@ -309,7 +327,7 @@ class Interp:
         return _jsonable(res)
 
     def _mk_exc(self, spec):
-        e = self._mk_exc0(spec)
+        e = _uexc(self._mk_exc0(spec))
         for k, v in (spec.get("attrs") or {}).items():
             # third-party exception classes carry arbitrary attributes (an HTTP error with the raw body in .data, ...)
             setattr(e, k, from_tagged(v))
@@ -477,14 +495,14 @@ class Interp:
         if k == "fail_by_attempt":
             # deterministic in the *recorded* attempt number: independent of interruptions
             if (attempt or 0) < beh["k"]:
-                raise USER_ERRORS[beh["err"]](beh.get("msg", "transient"))
+                raise _uexc(USER_ERRORS[beh["err"]](beh.get("msg", "transient")))
             return from_tagged(beh["v"])
         if k == "fail_then_ret":
             if entry_no <= beh["k"]:
-                raise USER_ERRORS[beh["err"]](beh.get("msg", "transient"))
+                raise _uexc(USER_ERRORS[beh["err"]](beh.get("msg", "transient")))
             return from_tagged(beh["v"])
         if k == "always_fail":
-            raise USER_ERRORS[beh["err"]](beh.get("msg", "always"))
+            raise _uexc(USER_ERRORS[beh["err"]](beh.get("msg", "always")))
         if k == "ticket":
             # a genuinely non-deterministic step (draws a number, reads a clock, calls a service): every execution of
             # the function yields another value, so a re-execution is visible wherever the value flows
@@ -704,7 +722,7 @@ class Interp:
                 rec["poll_no"] = recorded_poll_no
                 if st.get("fail_at") == recorded_poll_no:
                     rec["failed"] = True
-                    raise USER_ERRORS[st.get("fail_err", "ValueError")]("check failed")
+                    raise _uexc(USER_ERRORS[st.get("fail_err", "ValueError")]("check failed"))
                 new = next_state(state, n)
                 rec["state_out"] = to_tagged(new)
                 return new
@@ -923,6 +941,8 @@ def run_execution(case: dict, *, max_invocations: int | None = None, hooks: dict
             for t_ in sched.tasks:
                 if t_.exc is not None and D.is_harness_exc(t_.exc):
                     raise D.HarnessError(f"harness exception in task {t_.name}: {t_.exc!r}") from t_.exc
+            if sched.root_exc is not None and D.is_harness_exc(sched.root_exc):
+                raise D.HarnessError(f"harness exception reached the handler's caller: {sched.root_exc!r}") from sched.root_exc
             rec.update({"sched": sched.outcome, "steps": sched.step, "t1": backend.now, "trace": list(sched.trace), "api_calls": boto.n,
                         "calls_after_failure": boto.calls_after_failure, "failed_at": boto.failed_at,
                         "deadlock_info": sched.deadlock_info, "switches": sched.switches, "abort_dump": sched.abort_dump,
